@@ -64,7 +64,17 @@ type structInterface interface {
 // isStruct returns true if the given type is a struct that embeds our
 // struct marker.
 func isStruct(t reflect.Type) bool {
+	// A pointer type can lead back to itself (type P *P) and then never
+	// reaches a struct.
+	var seen map[reflect.Type]struct{}
 	for t.Kind() == reflect.Ptr {
+		if _, ok := seen[t]; ok {
+			return false
+		}
+		if seen == nil {
+			seen = map[reflect.Type]struct{}{}
+		}
+		seen[t] = struct{}{}
 		t = t.Elem()
 	}
 
